@@ -504,20 +504,29 @@ def ptrLoop (s : State) (maxOps : Nat) : List Nat → Nat → Caches → List Po
     let (p', iters, c') := iterateEpochPointer data e (ps.getD e Pointer.last) remain (rewardsCb s) c
     ptrLoop s maxOps es (total + iters) c' (ps.set e p')
 
+/-- `UpdateStreamAtEpochEnd`, the counter part: an epoch is filled unless the stream has no weight -/
+def Stream.atEpochEnd (st : Stream) : Stream :=
+  if st.totalWeight != 0 then { st with filled := st.filled + 1 } else st
+
+/-- the rest of `UpdateStreamAtEpochEnd` (a filled stream moves to the finished list) and `SetStream` -/
+def saveStreamEnd (st' : Stream) (s : State) : Res :=
+  if st'.filled ≥ st'.numEpochs then
+    match Refs.del s.active st'.start st'.id with
+    | none => .error .err
+    | some a =>
+      match Refs.add s.finished st'.start st'.id with
+      | none => .error .err
+      | some f => .ok (setStream { s with active := a, finished := f } st')
+  else .ok (setStream s st')
+
 /-- `UpdateStreamAtEpochEnd` + `SetStream` for every cached stream -/
 def saveStreams (epochEnd : Bool) : List Stream → State → Res
   | [], s => .ok s
   | st :: rest, s =>
     if epochEnd then
-      let st' := if st.totalWeight != 0 then { st with filled := st.filled + 1 } else st
-      if st'.filled ≥ st'.numEpochs then
-        match Refs.del s.active st'.start st'.id with
-        | none => .error .err
-        | some a =>
-          match Refs.add s.finished st'.start st'.id with
-          | none => .error .err
-          | some f => saveStreams epochEnd rest (setStream { s with active := a, finished := f } st')
-      else saveStreams epochEnd rest (setStream s st')
+      match saveStreamEnd st.atEpochEnd s with
+      | .error e => .error e
+      | .ok s1 => saveStreams epochEnd rest s1
     else saveStreams epochEnd rest (setStream s st)
 
 /-- x/streamer `Keeper.Distribute(epochPointers, streams, maxOperations, epochEnd)` -/
